@@ -133,6 +133,15 @@ func VerifScenarios() []VScenario {
 		b.user("b")
 		b.lines(a, "JOIN #c", "MODE #c +x", "INVITE b #c")
 	})
+	mk("captcha-rotated", func(b *vbuilder) { // #c +x; c was handed a challenge; then the network secret is replaced
+		b.config(vCfgBase)
+		a := b.user("a")
+		b.user("b")
+		c := b.user("c")
+		b.lines(a, "JOIN #c", "MODE #c +x")
+		b.line(c, "JOIN #c")
+		b.config(strings.Replace(vCfgBase, `CaptchaHMACSecret = "736563726574"`, `CaptchaHMACSecret = "6f74686572"`, 1))
+	})
 	mk("secret-open", func(b *vbuilder) { // #c +s -n -t, a op, b member (was op, lost it), c outside
 		b.config(vCfgBase)
 		a := b.user("a")
